@@ -448,6 +448,21 @@ func strayAmp(n *nd, isParams bool) bool {
 	return false
 }
 
+func emptyBlock(n *nd) bool {
+	if n.kids == nil {
+		return false
+	}
+	if !n.sq && len(n.kids) == 1 && (n.kids[0].atom == "begin" || n.kids[0].atom == "newScope") {
+		return true
+	}
+	for _, k := range n.kids {
+		if emptyBlock(k) {
+			return true
+		}
+	}
+	return false
+}
+
 func symbolInHead(n *nd) bool {
 	if n.kids == nil {
 		return false
@@ -484,6 +499,11 @@ func (sc *lzScen) emit(g *Gen, stream string, mutate bool) {
 			for _, f := range t {
 				if strayAmp(f, false) {
 					g.Count("mal dropped (stray &)")
+					return
+				}
+				if emptyBlock(f) {
+					// (begin) / (newScope) without statements used as a value: C02's known findings
+					g.Count("mal dropped (empty begin/newScope)")
 					return
 				}
 				if symbolInHead(f) {
@@ -625,7 +645,7 @@ func lazyGen(g *Gen) {
 	lazySmallScope(g)
 	nR, nM, nS := 1500, 500, 300
 	if g.Thorough() {
-		nR, nM, nS = 30000, 8000, 3000
+		nR, nM, nS = 50000, 12000, 6000
 	}
 	for i := 0; i < nR; i++ {
 		lzRandom(g, false).emit(g, "rnd", false)
